@@ -35,9 +35,9 @@ def run_rp(ctx, shapes, per_shape_axes, big=()):
                 if not listed:
                     kwargs = pt.kw_variant(rng, k)
                 elif axis == (0, 1):
-                    kwargs = [[pt.kw_variant(rng, k + 3 * i + 5 * j) for j in range(n1)] for i in range(n0)]
+                    kwargs = pt.with_default_entry([[pt.kw_variant(rng, k + 3 * i + 5 * j) for j in range(n1)] for i in range(n0)], k)
                 else:
-                    kwargs = [pt.kw_variant(rng, k + 3 * i) for i in range(n0 if axis == 0 else n1)]
+                    kwargs = pt.with_default_entry([pt.kw_variant(rng, k + 3 * i) for i in range(n0 if axis == 0 else n1)], k)
                     for kw in kwargs:
                         kw['center_extrema'] = kwargs[0]['center_extrema']      # one centring per flattened analysis (documented)
                 T = n0 * n1 if axis == (0, 1) else (n0 if axis == 0 else n1)
@@ -60,7 +60,7 @@ def run_rp(ctx, shapes, per_shape_axes, big=()):
     for (n0, n1) in big:
         sigs = pt.vary(pt.make_sigs(rng, (n0, n1), n=80), k)
         listed = k % 2 == 0
-        kwargs = [[pt.kw_variant(rng, k + 3 * i + 5 * j) for j in range(n1)] for i in range(n0)] if listed else pt.kw_variant(rng, k)
+        kwargs = pt.with_default_entry([[pt.kw_variant(rng, k + 3 * i + 5 * j) for j in range(n1)] for i in range(n0)], k) if listed else pt.kw_variant(rng, k)
         case, realised = pt.run_3d(sigs, 64, (8, 12), kwargs, (0, 1), 8, [0.0] * (n0 * n1), logdir)
         case['ref'] = pt.reference_3d(sigs, 64, (8, 12), kwargs, (0, 1))
         case['pid'] = 'C12'
